@@ -3,7 +3,7 @@ import os, json, re, time, hashlib
 from concurrent.futures import ThreadPoolExecutor
 import cb
 from cb import ToolError, Report, log
-from checks import register, Drift
+from checks import register, Drift, ConformanceDrift
 
 
 def e2e_bin():
@@ -195,8 +195,10 @@ def c01(tier, seed):
     if mc_violated and not rep.violations:
         raise ToolError(f"E2E.tla violates {mc_violated} with the code's read orders {orders} but no real execution reproduced it:\n{r.trace_text()[-2500:]}")
     rc = rep.finish()
-    if rc == 0 and (drifts or "other" in (o["poller"], o["client"])):
-        raise Drift("; ".join(drifts[:3]) or f"clock-read order outside the specification's family: {o}")
+    if rc == 0 and "other" in (o["poller"], o["client"]):
+        raise Drift(f"clock-read order outside the specification's family: {o}")
+    if rc == 0 and drifts:
+        raise ConformanceDrift("; ".join(drifts[:3]))
     return rc
 
 
@@ -239,5 +241,5 @@ def c12(tier, seed):
     daemonchecks.whole_runs(rep, tier, daemonchecks.WHOLE_PROPS["C12"])
     rc = rep.finish()
     if rc == 0 and drifts:
-        raise Drift("; ".join(drifts[:3]))
+        raise ConformanceDrift("; ".join(drifts[:3]))
     return rc
